@@ -68,6 +68,11 @@ def sync_dense(rng, n):
 
 def gen_ubx(rng):
     n = rng.choice((0, 0, 1, 2, 4, 8, 28, 36, 100, 300, rng.randrange(0, 700)))
+    if rng.random() < 0.004:
+        # the UBX length field is 16 bits unsigned: payloads beyond 32767 are legal
+        p = sync_dense(rng, 64) * (rng.choice((32768, 40000, 65534, 65535)) // 64 + 1)
+        p = p[: rng.choice((32768, 40000, 65534, 65535))]
+        return ["ubx", wire.ubx_frame(rng.randrange(256), rng.randrange(256), p).hex(), "len%d" % len(p)]
     style = rng.randrange(4)
     if style == 0:
         p = sync_dense(rng, n)
@@ -355,13 +360,26 @@ class Stream:
 # ---------------------------------------------------------------------------
 
 
-def drive(reader, stream, mode="iterate", max_none=0, resume_on_raise=True, max_events=5000):
+def drive(reader, stream, mode="iterate", max_none=0, resume_on_raise=True, max_events=5000, handover=None):
     """Run the application loop.  Returns the event list:
     ("frame", raw, parsed) | ("raise", exc) | ("none",) | ("stop",)
-    SimBudgetExceeded propagates (it is the non-termination signal)."""
+    SimBudgetExceeded propagates (it is the non-termination signal).
+    handover = (k, factory): after k delivered frames the application builds a
+    new reader over the old reader's public `datastream`, drops the old reader
+    and has it garbage collected (the connection is handed from one reader
+    object to the next)."""
+    import gc
+
     events = []
     nones = 0
+    nframes = 0
     while len(events) < max_events:
+        if handover is not None and nframes >= handover[0]:
+            new = handover[1](reader.datastream)
+            reader = new
+            del new
+            gc.collect()
+            handover = None
         try:
             if mode == "iterate":
                 raw, parsed = next(reader)
@@ -392,6 +410,7 @@ def drive(reader, stream, mode="iterate", max_none=0, resume_on_raise=True, max_
                 break
             continue
         nones = 0
+        nframes += 1
         events.append(("frame", raw, parsed, stream.pos()))
     return events
 
@@ -406,7 +425,7 @@ def public_dict(msg):
 def canon_msg(msg):
     if msg is None:
         return None
-    return (msg.identity, bytes(msg.payload), tuple(public_dict(msg)))
+    return (msg.identity, bytes(msg.payload), tuple(public_dict(msg)), str(msg), bytes(msg.serialize()))
 
 
 def lib_exceptions():
@@ -591,7 +610,7 @@ def make_decider(scn, kind):
 # user error handlers ("error handling object or function")
 # ---------------------------------------------------------------------------
 
-HANDLER_KINDS = ("method", "function", "collector", "falsy")
+HANDLER_KINDS = ("method", "function", "collector", "falsy", "ephemeral")
 
 
 class _Collector:
@@ -619,6 +638,16 @@ class _Falsy:
         return False
 
 
+class _Reporter:
+    """an application object whose bound method is the handler"""
+
+    def __init__(self, calls):
+        self._calls = calls
+
+    def on_error(self, err):
+        self._calls.append(err)
+
+
 def make_handler(opt):
     """(constructor kwargs, list that records every handler invocation)"""
     calls = []
@@ -630,4 +659,7 @@ def make_handler(opt):
         return {"errorhandler": lambda err: calls.append(err)}, calls
     if opt == "collector":
         return {"errorhandler": _Collector(calls)}, calls
+    if opt == "ephemeral":
+        # bound method of an object the application keeps no other reference to
+        return {"errorhandler": _Reporter(calls).on_error}, calls
     return {"errorhandler": _Falsy(calls)}, calls
